@@ -406,11 +406,6 @@ Definition lite_split (delim : option str) (line : str) : list str * bool :=
   | _ => ([line], false)
   end.
 
-(* a splitter that flags a warning when the line contains a quote next to a non-delimiter - used only to exercise
-   the defective-line paths of the model from the entry points: fields = split on delim, warning = odd number of quotes *)
-Definition probe_split (delim : option str) (line : str) : list str * bool :=
-  (fst (lite_split delim line), quotes_odd line).
-
 (* ------------------------------------------------------------------ the specification: records as a function of the physical lines *)
 
 (* BOM handling touches the first physical line only *)
